@@ -392,7 +392,9 @@ messageTypeSwitching:
 
 		err := m.writeRPCResponse(int(message.ReqMsgID), obj)
 		if err != nil {
-			return errors.Wrap(err, "writing RPC response")
+			// nobody waits for this result (repeated or unsolicited one). it must be acknowledged anyway,
+			// otherwise server sends it again and again
+			m.warnError(errors.Wrap(err, "writing RPC response"))
 		}
 
 	case *objects.GzipPacked:
